@@ -643,6 +643,36 @@ func (rn *runner) streamArith(g *gen, opList []string, extreme bool) {
 			if iarg < -100000 {
 				iarg = -100000
 			}
+			if g.r.Intn(16) == 0 && x.Form == apd.Finite {
+				// exponent gaps at and beyond the package limit, in both directions: the operand's exponent
+				// is moved so that |x.Exponent - iarg| is 99999..100002 or far more
+				gap := g.pick(100001, 100002, 100003, 120000, 199999)
+				if extreme && g.r.Intn(3) == 0 {
+					// the largest gaps that are still rescaled: coefficients of 100000 digits (seconds per case in the model)
+					gap = g.pick(99999, 100000)
+				}
+				lo := gap - 100000
+				if lo < -100000 {
+					lo = -100000
+				}
+				xe := lo + int64(g.r.Intn(int(100000-lo)+1))
+				if g.r.Intn(2) == 0 {
+					x.Exponent = int32(xe)
+					iarg = int32(xe - gap)
+					if g.r.Intn(4) != 0 {
+						// make the call reach the rescaling step: target exponent not below Etiny, operand inside
+						// the exponent range and (half of the time) short enough for the precision
+						c.MinExponent = -100000
+						c.MaxExponent = 100000
+						if g.r.Intn(2) == 0 {
+							x.Coeff.SetMathBigInt(g.coeff(1 + g.r.Intn(int(c.Precision)+1)))
+						}
+					}
+				} else {
+					x.Exponent = int32(-xe)
+					iarg = int32(gap - xe)
+				}
+			}
 		}
 		rn.ctxCase(op, c, x, y, iarg)
 	}
